@@ -7,6 +7,7 @@
 Model conformance of each operation and aliasing over histories are not decided.
 """
 import mir
+import re
 import rules
 from core import AnchorMissing
 from props import _builtins
@@ -30,6 +31,7 @@ def run(ctx, rep):
     map_delegation(F, rep)
     from props import _hashkeys
     _hashkeys.run(F, rep)
+    fresh_results(F, rep)
     if _casts is not None:
         _casts.run_c13(F, rep)
 
@@ -189,3 +191,78 @@ def map_delegation(F, rep):
         rep.ob("C13.map-delegation", "GcMap::%s answers from the inner HashMap (HashMap::%s), not through another wrapper operation" % (m, std), st,
                "calls on the inner map: %s; calls of other GcMap operations: %s" % (std_calls, own), f.span, fn=f.path, key="C13.map-delegation|%s" % m)
     rep.floor("C13.map-delegation operations", n, 9)
+
+
+NEW_LIST_METHODS = {"VecClone": "clone", "VecMap": "map", "VecFilter": "filter", "MapClone": "clone (map)"}
+FRESH_CTORS = ("bytecode::variables::primitive::GcVector::new", "bytecode::variables::primitive::GcVector::with_capacity",
+               "bytecode::variables::primitive::GcMap::new")
+
+
+def fresh_results(F, rep):
+    """`clone`, `map` and `filter` hand out a container of their own: the list / map they return is allocated by the call (directly, or as the
+    result buffer of the callback bridge, a field that only ever holds a freshly allocated cell) -- never the receiver or an argument under
+    another name, which later updates through either name would show through the other."""
+    from props import _casts, _borrows
+    import rules
+    run_, arms = _casts.arms_of_run(F)
+    prim = F.adt(PRIM) if "PRIM" in globals() else F.adt("bytecode::variables::primitive::Primitive")
+    n = 0
+
+    def payload_sources(fn, local):
+        """(fresh ctor calls, alias sources) feeding a GcVector / GcMap value"""
+        o = rules.origins(fn, local, transparent=rules.TRANSPARENT - {"core::clone::Clone::clone"})
+        by_bb = {c.bb: c for c in fn.calls()}
+        fresh, alias = [], []
+        for x in o:
+            if x[0] == "call":
+                c = by_bb[x[1]]
+                if c.matches(FRESH_CTORS):
+                    fresh.append(c)
+                elif c.matches("core::clone::Clone::clone"):
+                    # a pointer copy of something: what?
+                    pl = _borrows._recv_place(fn, c)
+                    if pl is not None and _borrows.fresh_field(F, fn, pl, "bytecode"):
+                        fresh.append(c)
+                    else:
+                        alias.append("a copy of the pointer %s" % (fn.local_name(pl[0]) + "".join(".%s" % e[1] for e in pl[1] if e[0] == "field") if pl else "of an existing container"))
+                else:
+                    alias.append(mir.short(c.callee()))
+            else:
+                alias.append(str(x))
+        return fresh, alias
+    # (1) the arms of BuiltInFunction::run that return a container directly
+    for variant, meth in sorted(NEW_LIST_METHODS.items()):
+        blocks = arms.get(variant)
+        if blocks is None:
+            continue
+        bad, good = [], 0
+        for bi, si, d, rv, st in run_.assigns():
+            if bi in blocks and "agg" in rv and rv["agg"].get("k") == "adt" and rv["agg"].get("adt", "").endswith("primitive::Primitive") and rv["agg"].get("v") in ("Vector", "Map"):
+                l = mir.op_local(rv["ops"][0])
+                fresh, alias = payload_sources(run_, l) if l is not None else ([], ["?"])
+                if alias:
+                    bad.append("%s at %s" % (", ".join(alias), st.get("sp")))
+                elif fresh:
+                    good += 1
+        if good or bad:
+            n += 1
+            rep.ob("C13.fresh-result", "`%s` returns a container allocated by the call, not the receiver under another name" % meth, "violated" if bad else "ok",
+                   "; ".join(bad) if bad else "%d return site(s), all freshly allocated" % good, run_.span, fn=run_.path, key="C13.fresh-result|%s" % variant)
+    # (2) the callback bridges: finish() returns the result buffer
+    for f in F.crates["bytecode"].fns:
+        m = re.match(r"<bytecode::function::BuiltInFunction::run::(\w+) as bytecode::function::RuntimeExecutionBridgeNotifier>::finish$", f.path)
+        if not m:
+            continue
+        bad, good = [], 0
+        for bi, si, d, rv, st in f.assigns():
+            if "agg" in rv and rv["agg"].get("k") == "adt" and rv["agg"].get("adt", "").endswith("primitive::Primitive") and rv["agg"].get("v") in ("Vector", "Map"):
+                l = mir.op_local(rv["ops"][0])
+                fresh, alias = payload_sources(f, l) if l is not None else ([], ["?"])
+                if alias:
+                    bad.append("%s at %s" % (", ".join(alias), st.get("sp")))
+                elif fresh:
+                    good += 1
+        n += 1
+        rep.ob("C13.fresh-result", "%s::finish returns its own result buffer, never the traversed list" % m.group(1), "violated" if bad else ("ok" if good else "undecided"),
+               "; ".join(bad) if bad else "%d return site(s)" % good, f.span, fn=f.path, key="C13.fresh-result|%s::finish" % m.group(1))
+    rep.floor("C13.fresh-result container-returning operations judged", n, 4)
